@@ -1,12 +1,245 @@
 /-
-C09 — property theorems (first layer: pinned witnesses).  The model is shared
-with C07 (`PubModel/C07/*`).
+C09 — property theorems.  The model is shared with C07 (`PubModel/C07/*`).
+
+Property: whenever JSONx accepts an input, the JSON it emits is valid and
+denotes the value the input denotes (plain JSON: what a standard parser reads;
+extensions: their documented value); Unmarshal/ReadFile report trailing content.
+
+`RV` (PubModel/C07/Surface.lean) is the surface tree of a document: every
+rendering of a JSON value under JSONx surface choices is `r.toks` for some `r`
+(sign, decimal/hex/octal integer literal, any float literal, raw or Go-escaped
+string literal, bare or quoted key, trailing comma, dotted identifier list);
+white space, comments and newline separators are gone at this level (lexer,
+comment remover, semicolon inserter).  `r.val` is the documented meaning and
+`emit` the canonical JSON text of a meaning.
 -/
-import PubModel.C07.Demo
-import PubModel.C07.Obligations
+import PubModel.C07.Theorems
+import PubModel.C07.LemmasJson
 
 namespace PubModel.C09
 open PubModel.C07
+
+section
+variable {φ : Type} (cfg : Cfg) (hcfg : CfgOK cfg) (L : Leaf φ)
+include hcfg
+
+/-- **toJSON_denotes** (rendered documents): for every surface tree `r` whose leaves the
+    delegated functions accept, `ToJSON` succeeds and emits the canonical JSON text of
+    the documented meaning of `r` — Go-style integers by their Go value
+    (`go_integer_denotes`), floats as `strconv.ParseFloat` reads them, strings as
+    `strconv.Unquote` reads them, bare keys as their spelling, dotted identifier lists
+    as arrays of strings; the sign `+` is dropped and `-` kept.
+
+    Full statement (every accepted input, not only renderings), not yet proved:
+      `toJSONToks cfg L ts = .ok out → ∃ r j rest, ts.map (·.tok) = r.toks ++ rest ∧
+         r.val L = some j ∧ out = emit L j`
+    (the converse direction: induction over the parser with the invariant "no error so
+    far"); the correspondence run covers it on every generated input meanwhile. -/
+theorem toJSON_denotes_partial (r : RV) (j : JV (Num φ)) (hv : r.val L = some j) (hw : r.WF)
+    (rest : List Tok) (hf : FollowOK rest) :
+    toJSONToks cfg L (plain (r.toks ++ rest)) = .ok (emit L j) :=
+  parse_render cfg hcfg L r j hv hw rest hf
+
+/-- **toJSON_valid**: the emitted text is an RFC 8259 JSON text (`JsonText`: the grammar
+    of RFC 8259 sections 2-7 over the decidable number and string grammars), for every
+    rendered document, under the contracts of `encoding/json`'s leaf encoders
+    (`JsonLeaf`: a marshalled string is a JSON string, a marshalled non-negative
+    float64 an unsigned JSON number — validated by the harness on every run).
+    Integers are emitted as the decimal numeral of their Go value, which is a JSON
+    number (`natChars_json`); the sign is `-` or nothing. -/
+theorem toJSON_valid (hL : JsonLeaf L) (r : RV) (j : JV (Num φ)) (hv : r.val L = some j) (hw : r.WF)
+    (hfl : r.FloatLits) (rest : List Tok) (hf : FollowOK rest) :
+    ∃ out, toJSONToks cfg L (plain (r.toks ++ rest)) = .ok out ∧ JsonText out :=
+  ⟨emit L j, parse_render cfg hcfg L r j hv hw rest hf,
+    emit_jsonText L hL.str_ok j (val_valid L hL r j hfl hv)⟩
+
+/-- **Trailing content is an error**: a complete value followed by a token that is
+    neither a separator nor end of file makes Unmarshal/ReadFile fail ... -/
+theorem unmarshal_rejects_trailing (r : RV) (j : JV (Num φ)) (hv : r.val L = some j) (hw : r.WF)
+    (t : Tok) (more : List Tok) (h1 : t.ty ≠ .semi) (h2 : t.ty ≠ .eof) (h3 : t ≠ tokOp '.') :
+    unmarshalToks cfg L (plain (r.toks ++ t :: more)) = .err "more" := by
+  have hs : (r.val L).isSome = true := by simp [hv]
+  have hn : r.size ≤ (plain (r.toks ++ t :: more)).length + 2 := by
+    have := RV.size_le r; simp [plain]; omega
+  have hf : FollowOK (t :: more) := by simpa [FollowOK] using h3
+  have hp := parseValue_render cfg hcfg L r hs hw _ hf _ hn
+  have he := encodeValue_ast cfg hcfg L r j hv
+  simp only [unmarshalToks, decodeToks, init_plain, hp]
+  simp [he, PS.see, h1, h2]
+
+/-- ... and so does anything but end of file after the one separator Decode skips -/
+theorem unmarshal_rejects_trailing_after_separator (r : RV) (j : JV (Num φ)) (hv : r.val L = some j)
+    (hw : r.WF) (l : Chars) (t : Tok) (more : List Tok) (h2 : t.ty ≠ .eof) :
+    unmarshalToks cfg L (plain (r.toks ++ ⟨.semi, l⟩ :: t :: more)) = .err "more" := by
+  have hs : (r.val L).isSome = true := by simp [hv]
+  have hn : r.size ≤ (plain (r.toks ++ ⟨.semi, l⟩ :: t :: more)).length + 2 := by
+    have := RV.size_le r; simp [plain]; omega
+  have hf : FollowOK (⟨.semi, l⟩ :: t :: more) := by simp [FollowOK, tokOp]
+  have hp := parseValue_render cfg hcfg L r hs hw _ hf _ hn
+  have he := encodeValue_ast cfg hcfg L r j hv
+  simp only [unmarshalToks, decodeToks, init_plain, hp]
+  simp [he, PS.see, h2]
+
+/-- a malformed Go-style integer (`089`, `0x`) is reported, not emitted -/
+theorem toJSON_rejects_malformed_integer (lit : Chars) (h : goInt lit = none) (rest : List Tok) :
+    toJSONToks cfg L (plain (⟨.int, lit⟩ :: rest)) = .err "" := by
+  have hlen : (plain (⟨.int, lit⟩ :: rest)).length + 2 = (rest.length + 2) + 1 := by simp [plain]
+  have hp : parseValue cfg L ((rest.length + 2) + 1) (mkPS (⟨.int, lit⟩ :: rest)) =
+      (.basic none .int lit false, mkPS rest) := by
+    rw [parseValue]; simp
+  simp only [toJSONToks, init_plain, hlen, hp]
+  simp [encodeValue, encodeBasic, hcfg.intConv, h]
+
+end
+
+section
+variable {φ : Type} (L : Leaf φ)
+
+/-- **Go-style integers denote their Go value** (`big.Int.SetString(lit, 0)`), under either sign -/
+theorem go_integer_denotes (lead : Option Char) (lit : Chars) (n : Nat) (h : goInt lit = some n) :
+    (RV.int lead lit).val L = some (.num (isNeg lead) (.int n)) := by
+  simp [RV.val, h]
+
+example : goInt (str "0x10") = some 16 ∧ goInt (str "007") = some 7 ∧ goInt (str "0xdeadBEEF") = some 3735928559 ∧
+    goInt (str "0") = some 0 ∧ goInt (str "00") = some 0 ∧ goInt (str "18446744073709551616") = some 18446744073709551616 ∧
+    goInt (str "089") = none ∧ goInt (str "0x") = none := by decide
+
+/-! ### plain JSON keeps its standard meaning -/
+
+mutual
+/-- a surface tree that uses no extension: RFC 8259 numbers with at most a `-`,
+    quoted keys, no trailing comma, no identifier list -/
+def Plain : RV → Prop
+  | .int lead lit => (lead = none ∨ lead = some '-') ∧ isJsonUNum lit = true ∧ isIntLit lit = true
+  | .flt lead lit => (lead = none ∨ lead = some '-') ∧ isJsonUNum lit = true
+  | .arr xs => PlainL xs
+  | .obj kvs => PlainO kvs
+  | .idents _ _ => False
+  | _ => True
+def PlainL : RL → Prop
+  | .nil => True
+  | .single v => Plain v
+  | .cons v t => Plain v ∧ PlainL t ∧ t ≠ .nil
+def PlainO : RO → Prop
+  | .nil => True
+  | .single k v => (∃ lit, k = .quoted lit) ∧ Plain v
+  | .cons k v t => (∃ lit, k = .quoted lit) ∧ Plain v ∧ PlainO t ∧ t ≠ .nil
+end
+
+mutual
+/-- the standard reading of a plain tree: integer literals are decimal -/
+def stdVal : RV → Option (JV (Num φ))
+  | .null => some .null
+  | .tru => some (.bool true)
+  | .fls => some (.bool false)
+  | .int lead lit => some (.num (isNeg lead) (.int (decVal lit)))
+  | .flt lead lit => (L.parseFloat lit).map fun f => .num (isNeg lead) (.flt f)
+  | .str lit => (L.unquote lit).map .str
+  | .arr xs => (stdValL xs).map .arr
+  | .obj kvs => (stdValO kvs).map .obj
+  | .idents _ _ => none
+def stdValL : RL → Option (JL (Num φ))
+  | .nil => some .nil
+  | .single v => (stdVal v).map fun j => .cons j .nil
+  | .cons v t =>
+    match stdVal v, stdValL t with
+    | some j, some js => some (.cons j js)
+    | _, _ => none
+def stdValO : RO → Option (JO (Num φ))
+  | .nil => some .nil
+  | .single k v =>
+    match keyVal L k, stdVal v with
+    | some kb, some j => some (.cons kb j .nil)
+    | _, _ => none
+  | .cons k v t =>
+    match keyVal L k, stdVal v, stdValO t with
+    | some kb, some j, some js => some (.cons kb j js)
+    | _, _, _ => none
+end
+
+mutual
+/-- **plain_json_agrees**: on a document that is plain JSON the documented JSONx
+    meaning is the standard one — in particular an RFC 8259 integer is never
+    misread as octal or hex.  (That `strconv.Unquote` and a JSON parser read a string
+    literal both accept alike is a contract of the `unquote` leaf, validated by the
+    harness on RFC 8259 texts.) -/
+theorem plain_json_agrees : ∀ (r : RV), Plain r → r.val L = stdVal L r
+  | .null, _ => rfl
+  | .tru, _ => rfl
+  | .fls, _ => rfl
+  | .int lead lit, h => by simp [RV.val, stdVal, goInt_json lit h.2.1 h.2.2]
+  | .flt _ _, _ => rfl
+  | .str _, _ => rfl
+  | .arr xs, h => by simp [RV.val, stdVal, plain_json_agreesL xs h]
+  | .obj kvs, h => by simp [RV.val, stdVal, plain_json_agreesO kvs h]
+  | .idents _ _, h => absurd h (by simp [Plain])
+theorem plain_json_agreesL : ∀ (xs : RL), PlainL xs → xs.val L = stdValL L xs
+  | .nil, _ => rfl
+  | .single v, h => by simp [RL.val, stdValL, plain_json_agrees v h]
+  | .cons v t, h => by
+    have h1 := plain_json_agrees v h.1
+    have h2 := plain_json_agreesL t h.2.1
+    simp only [RL.val, stdValL, h1, h2]
+    cases stdVal L v <;> cases stdValL L t <;> rfl
+theorem plain_json_agreesO : ∀ (kvs : RO), PlainO kvs → kvs.val L = stdValO L kvs
+  | .nil, _ => rfl
+  | .single k v, h => by
+    have h1 := plain_json_agrees v h.2
+    simp only [RO.val, stdValO, h1]
+    cases keyVal L k <;> cases stdVal L v <;> rfl
+  | .cons k v t, h => by
+    have h1 := plain_json_agrees v h.2.1
+    have h2 := plain_json_agreesO t h.2.2.1
+    simp only [RO.val, stdValO, h1, h2]
+    cases keyVal L k <;> cases stdVal L v <;> cases stdValO L t <;> rfl
+end
+
+end
+
+/-! ### non-vacuity -/
+
+/-- `{"a": [1, -2.5e+3, "x"], "b": {}}` as a plain tree -/
+def plainTree : RV :=
+  .obj (.cons (.quoted (str "\"a\"")) (.arr (.cons (.int none (str "1")) (.cons (.flt (some '-') (str "2.5e+3"))
+      (.single (.str (str "\"x\""))))))
+    (.single (.quoted (str "\"b\"")) (.obj .nil)))
+
+example : Plain plainTree := by
+  simp [plainTree, Plain, PlainO, PlainL]
+  decide
+
+example : toJSONToks fixedCfg demoLeaf (plain (plainTree.toks ++ [eofTok])) =
+    .ok (str "{\"a\":[1,-2.5e+3,\"x\"],\"b\":{}}") := by decide
+
+example : unmarshalToks fixedCfg demoLeaf (plain (plainTree.toks ++ [tokOp ',', eofTok])) = .err "more" := by decide
+example : unmarshal fixedCfg demoLeaf (str "{a: 1} 2") = .err "more" ∧
+    unmarshal fixedCfg demoLeaf (str "{a: 1}\n// done\n") = .ok (str "{\"a\":1}") := by decide
+
+/-- a leaf instance that satisfies the `encoding/json` contracts (every string is
+    marshalled as `"s"`, floats keep their literal) -/
+def constLeaf : Leaf Chars where
+  unquote lit := some (identBytes lit)
+  quote bs := bytesChars bs
+  jsonStr _ := str "\"s\""
+  parseFloat lit := if isJsonUNum lit then some lit else none
+  jsonFloat lit := lit
+  fmtFloat _ _ lit := lit
+
+theorem constLeaf_json : JsonLeaf constLeaf where
+  str_ok _ := by show isJsonStr (str "\"s\"") = true; decide
+  float_ok lit f _ h := by
+    by_cases hl : isJsonUNum lit = true
+    · simp [constLeaf, hl] at h; subst h; exact hl
+    · simp [constLeaf, hl] at h
+
+example : plainTree.FloatLits ∧ demoTree.FloatLits := by
+  simp [plainTree, demoTree, RV.FloatLits, RO.FloatLits, RL.FloatLits]
+  decide
+
+example : ∃ out, toJSONToks fixedCfg constLeaf (plain (demoTree.toks ++ [eofTok])) = .ok out ∧ JsonText out :=
+  toJSON_valid fixedCfg fixedCfg_ok constLeaf constLeaf_json demoTree _ rfl
+    (by simp [demoTree, RV.WF, RO.WF, RL.WF, leadOK])
+    (by simp [demoTree, RV.FloatLits, RO.FloatLits, RL.FloatLits]; decide) _ (by simp [FollowOK, tokOp, eofTok])
 
 /-! ### the pinned tree violates the property: concrete witnesses -/
 
@@ -20,11 +253,12 @@ theorem pinned_toJSON_hex :
 theorem pinned_toJSON_octal :
     toJSON pinnedCfg demoLeaf (str "007") = .ok (str "007") ∧ isJson (str "007") = false := by decide
 
-/-- repaired: they denote their Go value -/
+/-- repaired: they denote their Go value, malformed ones are reported -/
 theorem fixed_toJSON_examples :
     toJSON fixedCfg demoLeaf (str "-1.5") = .ok (str "-1.5") ∧
     toJSON fixedCfg demoLeaf (str "0x10") = .ok (str "16") ∧
     toJSON fixedCfg demoLeaf (str "007") = .ok (str "7") ∧
-    toJSON fixedCfg demoLeaf (str "089") = .err "" := by decide
+    toJSON fixedCfg demoLeaf (str "089") = .err "" ∧
+    isJson (str "[-1.5]") = true := by decide
 
 end PubModel.C09
